@@ -47,12 +47,19 @@ def generate(rng, tier):
     # SCALE: a long observing session (block-wise or bulk paths that only engage beyond some number of frames)
     big = rng.random() < (0.06 if tier == "quick" else 0.12)
     if big:
-        nfr = rng.choice([33, 40, 64, 70])
+        nfr = rng.choice([33, 40, 64, 70] + ([130] if tier == "thorough" else []))
     same_t = rng.random() < 0.6
     geom = {"fchans": rng.choice([16, 24, 32, 48]), "df": rng.choice([1.0, 2.7939677238464355, 0.5]),
             "dt": rng.choice([1.0, 18.253611008, 2.5]), "fch1": rng.choice([6e9, 1.42e9, 8.421e9]),
             "ascending": rng.random() < 0.5}
     tch = rng.choice([2, 3, 4, 6])
+    # SCALE: long frames - thousands of spectra each, so that sub-sample integration grids pass 2**16 points
+    long_frames = (not big) and rng.random() < (0.05 if tier == "quick" else 0.1)
+    if long_frames:
+        tch = rng.choice([6554, 8192, 7001, 13108])
+        same_t = True
+        nfr = rng.choice([2, 3])
+        geom["fchans"] = rng.choice([16, 24])
     t0 = rng.choice([0.0, 1000.5, 1.7e9, 59000.25])
     frames = []
     t = t0
@@ -72,14 +79,20 @@ def generate(rng, tier):
     path = {"kind": pk, "idx": rng.choice([0.25, 0.5, 0.7]), "drift": drift, "period": rng.choice([total / 3 + 1, 50.0]),
             "amp": rng.choice([1.0, 3.0]) * geom["df"], "spread": rng.choice([1.0, 4.0]) * geom["df"], "seed": rng.randrange(1 << 30),
             "rfi_type": rng.choice(["stationary", "random_walk"])}
+    if long_frames and drift == 0.0:
+        path["drift"] = drift = 0.45 * span / max(total, 1e-9)
     tk = rng.choice(["constant", "sine", "ramp", "scalar"] + (["array"] if same_t else []))
     tprof = {"kind": tk, "level": rng.choice([1.0, 5.0]), "period": rng.choice([total / 2 + 1, 33.0]), "slope": 1.0 / max(total, 1.0)}
-    integ_any = rng.random() < 0.5
+    integ_any = rng.random() < 0.5 or long_frames
     opts = {"integrate_path": integ_any and rng.random() < 0.5, "integrate_t_profile": integ_any and rng.random() < 0.5,
             "integrate_f_profile": integ_any and rng.random() < 0.4, "doppler_smearing": rng.random() < 0.25,
             "t_subsamples": rng.choice([2, 3, 10]), "f_subsamples": rng.choice([2, 4]), "smearing_subsamples": rng.choice([1, 2, 5])}
     if pk == "array" and opts["doppler_smearing"]:
         opts["doppler_smearing"] = False
+    if long_frames:
+        opts["t_subsamples"] = 10
+        if not (opts["integrate_path"] or opts["integrate_t_profile"]):
+            opts[rng.choice(["integrate_path", "integrate_t_profile"])] = True
     fkinds = ["gaussian", "sinc2", "lorentzian", "gaussian"]
     if not (opts["integrate_path"] or opts["integrate_t_profile"] or opts["integrate_f_profile"] or opts["doppler_smearing"]):
         fkinds.append("box")
